@@ -6,6 +6,7 @@
 (*                                                                                                  *)
 (* Family "P": one pool (OnePool), every transaction any sequence of <= MaxSp spends over SpendsDom *)
 (*             and <= MaxOut outputs over OwnersDom (ActionShaped: equally many, as an action list) *)
+(* Family "Q": as "P", under a single environment (prior known, no metadata, all keys)              *)
 (* Family "X": every pool takes its per-transaction content from a menu (cross-pool interplay)      *)
 (* Family "D": the continuity/metadata lattice: every prior kind x height link x hash link x       *)
 (*             activation era x metadata kind, over a few fixed transactions                        *)
@@ -105,7 +106,7 @@ TxD3 == [S |-> [sp |-> << "m" >>, out |-> << "a1e" >>], O |-> EmptyPool, I |-> E
 TxD4 == [S |-> EmptyPool, O |-> EmptyPool, I |-> [sp |-> << "u" >>, out |-> << "m" >>]]
 
 TxDom ==
-    IF Family = "P" THEN { [p \in Pools |-> IF p = OnePool THEN c ELSE EmptyPool] : c \in PoolContentP }
+    IF Family \in { "P", "Q" } THEN { [p \in Pools |-> IF p = OnePool THEN c ELSE EmptyPool] : c \in PoolContentP }
     ELSE IF Family = "X" THEN { [S |-> s, O |-> o, I |-> i] : s \in SapMenu, o \in ActMenu, i \in ActMenu }
     ELSE { TxD1, TxD2, TxD3, TxD4 }
 
@@ -126,7 +127,9 @@ EnvDomD ==
               l \in { << 1, TRUE >>, << 1, FALSE >>, << 3, TRUE >>, << 3, FALSE >>, << 0, TRUE >> },
               act \in 0..3, m \in MetaKinds }
 
-EnvDom == IF Family = "D" THEN EnvDomD ELSE EnvDomShapes
+EnvDom == IF Family = "D" THEN EnvDomD
+          ELSE IF Family = "Q" THEN { EnvRec("all", 1, TRUE, 3, "absent", "S", "K12") }
+          ELSE EnvDomShapes
 
 ---------------------------------------------------------------------------------
 
